@@ -203,6 +203,13 @@ def iter_not_substituted_in_alloc_extent(sig, case):
     )
 
 
+def c17_negated_zero_literal(sig, case):
+    """`-0` (USub of the index literal 0, created when unroll_loop / partial evaluation
+    substitutes 0 for an iterator under a negation) is printed as `-0`; the front end folds a
+    negated literal, so the text re-parses to `0` and prints differently (same value)"""
+    return sig.get("monitor") == "roundtrip" and sig.get("kind") == "prints_differently" and _diag(sig).get("only_negated_integer_zero") is True
+
+
 # ---------------------------------------------------------------- C14
 _C14 = {
     "avx2_mask_storeu_ps": ("mismatch",),
